@@ -12,6 +12,7 @@ use common::*;
 mod ops;
 mod ops_drop;
 mod ops_raw;
+mod ops_sqpoll;
 mod ops_sym;
 // mod ring;            // <-- ring phase: uncomment / add
 
